@@ -303,7 +303,7 @@ func c17() *core.Check {
 		},
 		One: func(w *core.Worker, c core.Case) {
 			s := c.In
-			if len(s) > 1<<17 {
+			if len(s) > 1<<19 {
 				return
 			}
 			w.Eval(1)
@@ -416,13 +416,38 @@ func c13() *core.Check {
 	texts := []string{"x", "text ", "'", "\"", "`", ">", "=", "a=b ", "&#60;", "\x00", "/>", "-->", "]]>", "%>", "x' y\" z` > = ", strings.Repeat("lorem ipsum ", 400)}
 	return &core.Check{
 		ID: "C13",
-		Rule: "for every HTML workload input s: IsXSS(s) vs OR over the five per-context verdicts; verdict(s,ctx) vs verdict(embed_ctx(s), data) for the four attribute contexts; verdict(t+s, data) vs verdict(s, data) for 16 texts t without '<' (quotes, '>', '=', entities, NUL, comment enders, 4.8 KB of prose). " +
+		Rule: "for every HTML workload input s (and for inputs of 128 KiB-16 MiB, thorough 64 MiB, whose only vector is at the very end or beginning): IsXSS(s) vs OR over the five per-context verdicts; verdict(s,ctx) vs verdict(embed_ctx(s), data) for the four attribute contexts; verdict(t+s, data) vs verdict(s, data) for 16 texts t without '<' (quotes, '>', '=', entities, NUL, comment enders, 4.8 KB of prose). " +
 			"Non-trivial = inputs on which at least one context fires or the contexts disagree with each other; distinct by input.",
-		Plan: htmlPlan(htmlQuick, htmlThorough),
-		Gen:  htmlGen,
+		Plan: func(tier string, seed uint64) []core.Unit {
+			us := htmlPlan(htmlQuick, htmlThorough)(tier, seed)
+			return append(us, gen.RangeUnits("hugeor", uint64(len(hugeSizes(tier))*4), 1, tier)...)
+		},
+		Gen: func(w *core.Worker, u core.Unit, emit func(core.Case)) {
+			if u.Gen == "hugeor" {
+				// request-body sized inputs with the only vector at the very end or
+				// the very beginning: IsXSS against the OR of the contexts
+				sz := hugeSizes(u.Arg)
+				for i := u.Lo; i < u.Hi; i++ {
+					n := sz[int(i)/4]
+					fill := strings.Repeat("a", n)
+					switch i % 4 {
+					case 0:
+						emit(core.Case{In: fill + "<script>alert(1)</script>", Kind: "hugeor"})
+					case 1:
+						emit(core.Case{In: "<script>alert(1)</script>" + fill, Kind: "hugeor"})
+					case 2:
+						emit(core.Case{In: fill + "' onerror='alert(1)", Kind: "hugeor"})
+					default:
+						emit(core.Case{In: strings.Repeat("x y ", n/4) + "\" onload=\"x", Kind: "hugeor"})
+					}
+				}
+				return
+			}
+			htmlGen(w, u, emit)
+		},
 		One: func(w *core.Worker, c core.Case) {
 			s := c.In
-			if len(s) > 1<<17 {
+			if len(s) > 1<<19 && c.Kind != "hugeor" {
 				return
 			}
 			w.Eval(1)
@@ -434,6 +459,13 @@ func c13() *core.Check {
 			}
 			if got := li.IsXSS(s); got != or {
 				w.Violate("or-mismatch", fmt.Sprintf("IsXSS = %v, per-context verdicts = %v", got, v))
+			}
+			if c.Kind == "hugeor" {
+				w.Count("huge_inputs_or_checked", 1)
+				if or {
+					w.Nontrivial(fmt.Sprintf("huge|%d|%d", len(s), core.Hash64(s[len(s)-24:])))
+				}
+				return
 			}
 			for _, e := range embeds {
 				in := li.VerifXSSCtx(s, e.ctx)
